@@ -188,6 +188,37 @@ def main(chk):
         bad.append(f'input gradient {got["in"][0]}, expected the custom rule {10.0 * (2 * cfg["z"] + 3)}')
     for b in bad[:2]:
       chk.violation(key, b, case)
+  # ---- the same routing with low-precision inputs / parameters (every input dtype): values chosen exactly representable
+  for dt in (jnp.bfloat16, jnp.float16):
+    for mode in ('grad', 'value_and_grad', 'vjp'):
+      for aux in (False, True):
+        key = f'C07:dtype={jnp.dtype(dt).name}:{mode}:aux={aux}'
+        cast = lambda t: jax.tree_util.tree_map(lambda v: jnp.asarray(v, dt), t)
+        variables = cast({**base_vars, 'st': {'Inner_0': {'cnt': jnp.asarray(10.0)}}})
+        x, z, ct = jnp.asarray(5.0, dt), jnp.asarray(7.0, dt), jnp.asarray(1.0, dt)
+        sel = ('params',) if mode in ('vjp', 'jvp') else ()
+        m = Outer(mode=mode, sel=sel, aux=aux, nin=1, zconst=7.0)
+        inner = Inner(aux=aux)
+        ivars = {c: variables[c]['Inner_0'] for c in ('params', 'consts', 'st')}
+
+        def pure(vs, a):
+          out, _ = inner.apply(vs, a, jnp.asarray(7.0), mutable=['st'])
+          return out
+        chk.count(key)
+        try:
+          o, upd = m.apply(variables, x, z, ct, mutable=['st'])
+        except Exception as e:
+          chk.violation(key, f'raised {type(e).__name__}: {str(e)[:160]} (jax autodiff of the pure apply function accepts these dtypes)', {})
+          continue
+        if mode in ('grad', 'value_and_grad'):
+          gj = jax.grad(lambda vs, a: (pure(vs, a)[0] if aux else pure(vs, a)), argnums=1)(ivars, x)
+          got = o['in'][0]
+        elif mode == 'vjp':
+          _, fn = jax.vjp(lambda vs, a: (pure(vs, a)[0] if aux else pure(vs, a)), ivars, x)
+          gj = fn(ct)[1]
+          got = o['in'][0]
+        if got.dtype != gj.dtype or float(got) != float(gj):
+          chk.violation(key, f'{mode}: {float(got)} ({got.dtype}), jax autodiff of the pure apply function gives {float(gj)} ({gj.dtype})', {})
   chk.sample({'spec': 'LiftDiff', 'case': res['exports'][0]})
   chk.cov['configurations'] = n
   chk.assumptions.append('gradient values are compared with the specification\'s exact integers and with jax.vjp of the pure apply function')
